@@ -229,4 +229,5 @@ def check(ctx):
 
     # ---- shared mechanisms: the neighbour's rules run as obligations of this property
     ctx.include("C01", "C02.R5", only=None)
-    ctx.rule("R5", "shared mechanisms, run as obligations of this property: the totals are cached nodes: they equal the sums of the CURRENT values only if the model's cache is coherent (all of C01: dirty flags, sweeps, wiring).")
+    ctx.include("C17", "C02.R5", only=['C17.R1'])
+    ctx.rule("R5", "shared mechanisms, run as obligations of this property: simulate() is a sequence of value assignments like any other: it goes through the setters and leaves the auto-update setting alone (C17.R1); the totals are cached nodes: they equal the sums of the CURRENT values only if the model's cache is coherent (all of C01: dirty flags, sweeps, wiring).")
